@@ -5,6 +5,15 @@ ids=[json.loads(l)['id'] for l in open('/verif/properties.jsonl')]
 BASE="cd /repo && cargo nextest run --workspace --no-fail-fast --tool-config-file pb:/w/lib/nextest.toml --profile pb --test-threads 8 --offline || (cd /repo && cargo test --workspace --no-fail-fast --offline)"
 E1="opseq"; E2="sched"; E3="enum"
 CHECKS={
+ "C02":("exploration",E3,"bounded-exhaustive enumeration of specifications x probes against a reference matcher",
+        "Every specification with <= 3 module names from a prefix-laden alphabet x all six filters x optional default x optional regex, built via parse / LogSpecBuilder / From<LevelFilter>, is installed in a real Logger with recording writers and probed with 10 targets x 5 levels x 4 messages (plus brace targets of an additional writer and forwarding / swallowing LogLineFilters); written == reference decision, max-level gate admits everything acceptable, enabled() never denies a written record.",
+        "Name alphabet of 6, regexes {x, ^y$}; quick tier restricts the level of the third module entry to {off, info, trace}.","4 C02"),
+ "C05":("model_checking",E1,"bounded-exhaustive exploration of reconfiguration histories against a reference stack machine",
+        "All words up to depth 4 (quick) / 5 (thorough) over the five LoggerHandle reconfiguration operations with 5 well-formed specifications (two differing only in the text filter) and 3 malformed texts run on a real Logger; after every operation result kind, enabled-grid, delivered records and log::max_level() are compared with a (active, stack) reference model, and the stack is drained at the end.",
+        "One handle; probe grid 5 levels x 6 targets x 2 messages.","4 C05"),
+ "C17":("exploration",E3,"bounded-exhaustive enumeration of specification texts against a reference parser; exhaustive round trips",
+        "Every specification with <= 3 module names (7-name alphabet incl. level words) x 6 filters x optional default is round-tripped through Display, TOML and (<= 1 name) a real specfile start/restart; every string of <= 6 (quick) / 7 (thorough) tokens over a 14-token alphabet plus multi-byte characters swept over every byte offset in every kind of part is parsed and compared with a reference parser: no panic, Err iff malformed, salvaged specification == well-formed parts.",
+        "Reference parser written from the documented BNF plus the tolerances the unit tests pin (trimmed parts, empty parts skipped, `name=` means trace); empty module names and duplicates only checked for no-panic.","4 C17"),
  "C01":("model_checking",E1,"bounded-exhaustive operation-sequence exploration of the real logger",
         "All words over {write(len), trigger_rotation, flush, clock+1s} up to depth 4 (quick) / 5 (thorough) for naming x criterion x sync write mode (plus line ending x name shapes at a smaller depth) are executed on the real Logger; after every flush and after shutdown the concatenation of the family files in documented age order must equal the accepted lines byte for byte.",
         "Bounds: size limit 20, buffer capacities 16/64, Age::Second, single thread, Cleanup::Never; age order and family membership come from a reference classifier written from the documentation.","4 C01"),
